@@ -74,8 +74,10 @@ func main() {
 		"N=1 returns the first point only (k/(N-1) is undefined); accepted",
 	}
 	maxN := ev.Pick(r, 5, 6)
+	var runLine func(c *mc.Ctx, dfi int, ls orb.LineString, Ns []int)
+	small := []int{-1, 0, 1, 2, 3, 4, 5, 6, 7, 8, 9, 10, 11, 12}
 	part := func(c *mc.Ctx) {
-		df := dfs[c.Choose(len(dfs))]
+		dfi := c.Choose(len(dfs))
 		n := c.Choose(maxN + 1)
 		var ls orb.LineString
 		if n == 0 && c.Bool() {
@@ -84,6 +86,11 @@ func main() {
 		for i := 0; i < n; i++ {
 			ls = append(ls, alphabet[c.Choose(len(alphabet))])
 		}
+		runLine(c, dfi, ls, small)
+	}
+	runLine = func(c *mc.Ctx, dfi int, ls orb.LineString, Ns []int) {
+		df := dfs[dfi]
+		n := len(ls)
 		L := 0.0
 		allEq, zeroSeg, segs, intLen := true, false, 0, true
 		for i := 1; i < n; i++ {
@@ -145,7 +152,7 @@ func main() {
 				}
 			}
 		}
-		for N := -1; N <= 12; N++ {
+		for _, N := range Ns {
 			var out orb.LineString
 			out = resample.Resample(ls.Clone(), df.f, N)
 			call := fmt.Sprintf("Resample(N=%d)", N)
@@ -207,6 +214,45 @@ func main() {
 		}
 	}
 	r.Explore("lines", fmt.Sprintf("3 distance functions x every vertex list of 0..%d alphabet points", maxN)+" x N in -1..12 x interval set", mc.Opts{MaxDev: -1, Split: 3}, part)
+	// families: long lines and large counts (scratch arrays sized by the input or by N; up- and down-sampling)
+	lens := []int{16, 100, 257, 1000}
+	bigN := []int{2, 3, 13, 100, 257, 1000, 4097}
+	r.Explore("families", fmt.Sprintf("3 distance functions x 4 families (3-4-5 zigzag, axis staircase with repeated vertices, there-and-back, one long segment among zero-length ones) x lengths %v x N in %v x the interval set", lens, bigN), mc.Opts{MaxDev: -1, Split: 2}, func(c *mc.Ctx) {
+		dfi := c.Choose(len(dfs))
+		f := c.Choose(4)
+		n := lens[c.Choose(len(lens))]
+		ls := make(orb.LineString, n)
+		x, y := 0.0, 0.0
+		for i := range ls {
+			switch f {
+			case 0: // 3-4-5 zigzag
+				if i > 0 {
+					x += 3
+					if i%2 == 1 {
+						y += 4
+					} else {
+						y -= 4
+					}
+				}
+			case 1: // staircase, every third vertex repeated
+				if i > 0 && i%3 != 0 {
+					if i%2 == 0 {
+						x++
+					} else {
+						y++
+					}
+				}
+			case 2: // there and back along the same segment
+				x = float64(i % 2 * 8)
+			case 3: // zero-length segments around one long one
+				if i >= n/2 {
+					x = 1024
+				}
+			}
+			ls[i] = orb.Point{x, y}
+		}
+		runLine(c, dfi, ls, bigN)
+	})
 	r.Sample(map[string]interface{}{"line": "[[0,0],[3,4],[3,4],[6,8]]", "N": 5, "expected": "[[0,0],[1.5,2],[3,4],[4.5,6],[6,8]]"})
 	r.Finish()
 }
